@@ -1,26 +1,15 @@
-"""Per-property configuration of ./check: which Lean modules carry the theorems,
-which drivers/harness binaries tie the model to the code, and the texts that go
-into MANIFEST.json / evidence. One entry per *claimed* property."""
+"""Per-property configuration of ./check, one JSON file per *claimed* property
+in tools/props/<ID>.json:
 
-KERNEL = "Lean 4.33.0 kernel (lake build; #print axioms audit: only propext / Classical.choice / Quot.sound allowed; no sorry/admit/axiom/native_decide/bv_decide)"
-HARNESS = "verif-harness (Rust): generators, canonicalisation, diff, shrinker - differential testing bounds what the model/code tie sees"
-TRANSLATOR = "tools/extract_consts.py copies literals/tables from /repo source text into Sozu/Generated/Consts.lean"
+  title, props_modules (Lean modules holding the `<ID>_*` theorems),
+  runs: [{bin, driver, tag?, args?, thorough_only?, timeout_quick?, timeout_thorough?}],
+  level, technique, design_ref, claim, level_note, trusted_base[], assumptions[]
+"""
+import json
+import os
 
-PROPS = {
-    "C16": {
-        "title": "Resources return to baseline and admission limits are never exceeded",
-        "props_modules": ["Sozu.Sessions.Props"],
-        "runs": [
-            {"bin": "sessions", "driver": "sessions_driver"},
-        ],
-        "level": "proof",
-        "technique": "Lean 4 theorems (invariants by induction over op sequences) on a model of SessionManager + differential correspondence with the real SessionManager",
-        "design_ref": "DESIGN.md §4 C16",
-        "claim": "Theorems, for every operation history: nb_connections <= max_connections; check_limits=true makes the following incr safe; refusal closes the accept gate and a decr under 90% reopens it; per-(cluster,ip) forward counts equal the number of tokens holding the slot (a token holds at most one), return to zero when every token is untracked, and never exceed a fixed positive limit under the admission call-site protocol. Partial: leak-freedom of the real session exit paths (a missing decrement somewhere in http/https/tcp session code) is not a theorem; the accounting core is proved and tied to the real SessionManager by differential runs.",
-        "level_note": "Trusted: Lean kernel; the hand-written model Sozu/Sessions/Model.lean is tied to lib/src/server.rs::SessionManager only through the differential harness (harness/src/bin/sessions.rs) and the constants translator; session exit paths in http.rs/https.rs/tcp.rs are not modelled.",
-        "trusted_base": [KERNEL, HARNESS, TRANSLATOR,
-                         "model of SessionManager hand-written; call-site protocol (check_limits->incr, at_limit->track) replicated in the harness, not extracted"],
-        "assumptions": ["slab length is an input of check_limits", "tokens/cluster ids/IPs are opaque identities",
-                        "usize arithmetic does not overflow (counts are bounded by the number of sessions)"],
-    },
-}
+_D = os.path.join(os.path.dirname(os.path.abspath(__file__)), "props")
+PROPS = {}
+for _fn in sorted(os.listdir(_D)):
+    if _fn.endswith(".json"):
+        PROPS[_fn[:-5]] = json.load(open(os.path.join(_D, _fn)))
